@@ -2,6 +2,7 @@ import LP.Props.C05
 import LP.Props.C03Fp
 import LP.Props.C05ModP
 import LP.Props.C05FpDiv
+import LP.Props.C05FpIrr
 #print axioms LP.Factor.toPolyZ_mul
 #print axioms LP.Factor.toPolyZ_pow
 #print axioms LP.Factor.toPolyZ_trim
@@ -16,3 +17,6 @@ import LP.Props.C05FpDiv
 #print axioms LP.FPoly.divModLoop_spec
 #print axioms LP.FPoly.divMod_spec
 #print axioms LP.FPoly.divMod_zero_iff
+#print axioms LP.FPoly.monics_complete
+#print axioms LP.FPoly.irreducible_of_no_small_monic_divisor
+#print axioms LP.FPoly.irreducibleFp_sound
